@@ -24,7 +24,7 @@ class Fn:
                  throws=False, propagate=(), dummy_ret=None, must=None,
                  call_index=(), lambda_marker=None, pnames=None, static_fn=True,
                  byref_return=False, extra_pre="", extra_post="", kind="function",
-                 expr_rx=None, expr_in_header=False, drop=()):
+                 expr_rx=None, expr_in_header=False, drop=(), subst_post=()):
         self.__dict__.update(locals())
         del self.__dict__["self"]
         self.must = dict(must or {})
@@ -36,7 +36,8 @@ def emit_fn(fn):
         loc = X.locate_lambda_body(fn.file, fn.scopes, fn.name, fn.lambda_marker)
     elif fn.kind == "expr":
         loc = X.locate_expr(fn.file, fn.scopes, fn.name, fn.expr_rx,
-                            occurrence=fn.occurrence, in_header=fn.expr_in_header)
+                            occurrence=fn.occurrence, in_header=fn.expr_in_header,
+                            params_hint=fn.params_hint)
     else:
         loc = X.locate(fn.file, fn.scopes, fn.name, fn.occurrence, fn.params_hint)
     fired = {}
@@ -76,6 +77,14 @@ def emit_fn(fn):
         if n == 0:
             raise ExtractionError("%s: fold expression not found" % fn.key)
 
+    if fn.subst_post:
+        body, f = X.r_subst(body, list(fn.subst_post)); note("R4_subst", sum(c for _, c in f))
+    if fn.byref_return:
+        # R20: a function returning a C++ reference returns the address of the designated object
+        body, n = X.r_byref_return(body); note("R20_byref_return", n)
+        if n == 0:
+            raise ExtractionError("%s: no return statement for by-reference return" % fn.key)
+
     # parameter names from the C++ header
     if fn.pnames is not None:
         pnames = list(fn.pnames)
@@ -84,13 +93,16 @@ def emit_fn(fn):
     if len(pnames) != len(fn.ptypes):
         raise ExtractionError("%s: %d parameters in /repo, recipe expects %d (%r)"
                               % (fn.key, len(pnames), len(fn.ptypes), loc.params_text))
-    # unnamed parameters get a fixed name
+    # unnamed parameters get a fixed name; parameters with ptype None are tag types and are dropped
     pnames = [p if p else "verif_unnamed%d" % i for i, p in enumerate(pnames)]
+    keep = [i for i, t in enumerate(fn.ptypes) if t is not None]
+    ptypes = [fn.ptypes[i] for i in keep]
+    pnames = [pnames[i] for i in keep]
 
     # array-typed identifiers: declared in recipe, parameters of vec types, locals of vec types
     arrays = set(fn.arrays)
     refs = set(fn.refparams)
-    for ty, nm in zip(fn.ptypes, pnames):
+    for ty, nm in zip(ptypes, pnames):
         base = ty.replace("const", "").replace("*", "").strip()
         if base in fn.vec_types and "*" not in ty:
             arrays.add(nm)
@@ -118,7 +130,7 @@ def emit_fn(fn):
     params = []
     if fn.method:
         params.append(fn.method)
-    for ty, nm in zip(fn.ptypes, pnames):
+    for ty, nm in zip(ptypes, pnames):
         params.append("%s %s" % (ty.replace("/*ref*/ ", ""), nm))
     cnames = (["self"] if fn.method else []) + pnames
     out = []
